@@ -606,6 +606,18 @@ Section invariant.
         destruct c; [rewrite <- (i_mesh pr HI)|rewrite <- (i_mat pr HI)|rewrite <- (i_audio pr HI)]; exact Hc.
   Qed.
 
+  (* ---- the queue of detected changes goes out (the system, and since the repair of S21 the first
+     step of the host's CSendInitialSync) ---- *)
+
+  Lemma Inv_react_components server pr : Inv pr -> Inv (react_on_changed_components server pr).
+  Proof.
+    intros HI. unfold react_on_changed_components. cbv zeta. apply foldl_inv.
+    - apply Inv_set_queue; [exact HI|intros x []].
+    - intros a [[u t] v] Hin Ha.
+      destruct server; [apply Inv_broadcast|apply Inv_send_up]; try exact Ha;
+        right; left; eapply (i_queue pr HI); eassumption.
+  Qed.
+
   (* ---- deferred commands ---- *)
 
   Lemma Inv_apply_cmd pr c : Inv pr -> cmd_ok c -> Inv (apply_cmd pr c).
@@ -634,8 +646,10 @@ Section invariant.
     - (* CApplyMaterial *) cbv zeta. unfold insert_asset. simpl in Hc.
       destruct from as [cl|]; repeat inv_step. apply Hc. discriminate.
     - (* CRelay *) repeat inv_step.
-    - (* CSendInitialSync *) destruct (Inv_build_full_sync pr HI) as [H1 H2].
-      destruct (build_full_sync pr) as [pr1 ms]. cbn [fst snd] in *.
+    - (* CSendInitialSync *) cbv zeta. apply (Inv_react_components true) in HI.
+      set (pr0 := react_on_changed_components true pr) in *.
+      destruct (Inv_build_full_sync pr0 HI) as [H1 H2].
+      destruct (build_full_sync pr0) as [pr1 ms]. cbn [fst snd] in *.
       apply Inv_send; [|exact I]. apply foldl_inv; [exact H1|].
       intros a x Hx Ha. apply Inv_send; [exact Ha|apply H2; exact Hx].
     - (* CRequestInitialSync *) destruct (Inv_build_full_sync pr HI) as [H1 _].
@@ -778,15 +792,6 @@ Section invariant.
     - split; reflexivity.
     - split; [reflexivity|]. unfold to_skinned_mapper. rewrite He. reflexivity.
     - split; reflexivity.
-  Qed.
-
-  Lemma Inv_react_components server pr : Inv pr -> Inv (react_on_changed_components server pr).
-  Proof.
-    intros HI. unfold react_on_changed_components. cbv zeta. apply foldl_inv.
-    - apply Inv_set_queue; [exact HI|intros x []].
-    - intros a [[u t] v] Hin Ha.
-      destruct server; [apply Inv_broadcast|apply Inv_send_up]; try exact Ha;
-        right; left; eapply (i_queue pr HI); eassumption.
   Qed.
 
   Lemma Inv_react_assets server k pr :
